@@ -134,14 +134,41 @@ def run_unit(unit):
     ctx = Ctx(unit)
     vc.STATS.update({k: 0 if isinstance(v, int) else 0.0 for k, v in vc.STATS.items()})
     err = None
+    import signal
+
+    class _UnitTimeout(Exception):
+        pass
+
+    timed_out = [False]
+
+    def _alarm(signum, frame):
+        timed_out[0] = True
+        raise _UnitTimeout()
+    limit = int(os.environ.get('PYVC_UNIT_TIMEOUT', getattr(unit, 'timeout', 240)))
+    try:
+        signal.signal(signal.SIGALRM, _alarm)
+        signal.alarm(limit)
+    except Exception:
+        pass
     try:
         unit.run(ctx)
+    except _UnitTimeout:
+        ctx.unsupported('unit', 'unit exceeded its time limit of %d s (undecided, not a violation)' % limit)
     except Unsupported as e:
         ctx.unsupported('unit', 'unsupported: %s' % e)
     except ip.PyRaise as e:
         ctx.unsupported('unit', 'uncaught interpreted exception %r %r' % (e.exc, getattr(e.exc, 'fields', {}).get('args')))
     except Exception as e:
-        err = traceback.format_exc()
+        if timed_out[0]:
+            # the alarm fired inside a native (z3 / ctypes) call and surfaced as another exception type
+            ctx.unsupported('unit', 'unit exceeded its time limit of %d s (undecided, not a violation)' % limit)
+        else:
+            err = traceback.format_exc()
+    finally:
+        try:
+            signal.alarm(0)
+        except Exception:
+            pass
     I = ctx.I
     touched = {}
     from .source import node_hash
